@@ -11,6 +11,8 @@ package main
 //   sget <i>                  GetCellValue of a cell whose <v> is shared-string index i
 //   siter <i>                 the same cell through a fresh Rows iterator (Next/Columns up to its row)
 //   scol <i>                  the same cell through a fresh Cols iterator
+//   (script tokens slo.<c> / sln.<c>: a LIVE Rows iterator opened and advanced to the cell's row, kept open across
+//    the following writes / loader calls / saves, then advanced further; transcript op is `siter <i>` as well)
 //   sload                     GetCellRichText of a shared-string cell (sharedStringsLoader + reader)
 //   sset <keyhex> <texthex>   SetCellStr of that text into a fresh cell; answer = index stored in the cell
 //   ssave                     WriteToBuffer; answer = decoded items of the saved shared strings part
@@ -104,6 +106,17 @@ func c12SScript(rng *Rng, sb *c12SBook, variant int) []string {
 	nc := len(sb.cells)
 	cell := func() int { return rng.Intn(nc) }
 	var sc []string
+	// a live iterator that has returned rows, then a write / loader / save, then it continues
+	mid := []string{fmt.Sprintf("sset.%d", rng.Intn(8)), "ssave", fmt.Sprintf("sload.%d", cell()), fmt.Sprintf("sset.%d", 5+rng.Intn(3))}
+	livePattern := func() {
+		sc = append(sc, fmt.Sprintf("slo.%d", cell()), mid[(variant/2)%len(mid)], fmt.Sprintf("sln.%d", rng.Intn(5)))
+		if rng.Chance(50) {
+			sc = append(sc, mid[rng.Intn(len(mid))], fmt.Sprintf("sln.%d", rng.Intn(5)))
+		}
+	}
+	if variant%2 == 0 {
+		livePattern() // while the table is still spilled
+	}
 	// forced openings: numeric-only read before the first string write; string read first; write first; iterator first
 	switch variant % 5 {
 	case 0:
@@ -116,6 +129,9 @@ func c12SScript(rng *Rng, sb *c12SBook, variant int) []string {
 		sc = append(sc, fmt.Sprintf("siter.%d", cell()), "ssave")
 	default:
 		sc = append(sc, "sread", fmt.Sprintf("sload.%d", cell()))
+	}
+	if variant%2 == 1 {
+		livePattern()
 	}
 	kinds := []string{"sget", "sget", "siter", "scol", "sread", "sload", "sset", "sset", "ssave"}
 	m := rng.Range(3, 8)
@@ -188,6 +204,28 @@ func c12SRun(r *Run, bk *c12Book, sb *c12SBook, xmlL, sizeL int64, script []stri
 		keyIdx[k] = true
 	}
 	nw := 0
+	var live *xl.Rows
+	liveSheet, liveRow := "", 0
+	defer func() {
+		if live != nil {
+			c12Guard(func() { live.Close() })
+		}
+	}()
+	// advance the live iterator to the given row and return the value in the given column
+	liveTo := func(row, col int) string {
+		v := "<norow>"
+		for liveRow < row && live.Next() {
+			liveRow++
+			r, _ := live.Columns()
+			if liveRow == row {
+				v = ""
+				if col-1 < len(r) {
+					v = r[col-1]
+				}
+			}
+		}
+		return v
+	}
 	for _, tok := range script {
 		kind, a, _ := c12ParseTok(tok)
 		var op, out string
@@ -249,6 +287,33 @@ func c12SRun(r *Run, bk *c12Book, sb *c12SBook, xmlL, sizeL int64, script []stri
 					}
 				}
 				op, out = fmt.Sprintf("scol %d", c.idx), "S"+hx(v)
+			case "slo":
+				c := sb.cells[a%len(sb.cells)]
+				if live != nil {
+					live.Close()
+					live = nil
+				}
+				it, err := f.Rows(c.sheet)
+				if err != nil {
+					return
+				}
+				live, liveSheet, liveRow = it, c.sheet, 0
+				op, out = fmt.Sprintf("siter %d", c.idx), "S"+hx(liveTo(c.row, c.col))
+			case "sln":
+				if live == nil {
+					return
+				}
+				var later []c12SCell
+				for _, c := range sb.cells {
+					if c.sheet == liveSheet && c.row > liveRow {
+						later = append(later, c)
+					}
+				}
+				if len(later) == 0 {
+					return
+				}
+				c := later[a%len(later)]
+				op, out = fmt.Sprintf("siter %d", c.idx), "S"+hx(liveTo(c.row, c.col))
 			case "sload":
 				c := sb.cells[a%len(sb.cells)]
 				f.GetCellRichText(c.sheet, c.cell)
